@@ -191,6 +191,25 @@ let kind3 id op streams vals failed =
    | FPDone l -> dump id (3 :: 0 :: List.length l :: il l)
    | FPFail l -> dump id (3 :: 1 :: List.length l :: il l)
    | FPFuel -> dump id [3; 2; 0]);
+  (* the property's own predicate (c02_fp_*_chunked): failure-free strictly sorted operands give
+     exactly the sorted set union / intersection / difference *)
+  let flat cs = List.concat_map (function Ch (l, _) -> il l | ChErr -> []) cs in
+  let clean = List.for_all (List.for_all (function Ch (_, false) -> true | _ -> false)) css in
+  let rec ssorted = function a :: (b :: _ as t) -> a < b && ssorted t | _ -> true in
+  let flats = List.map flat css in
+  let spec_violation =
+    if not (clean && List.for_all ssorted flats) || flats = [] then None
+    else begin
+      let expected = match as_int op, flats with
+        | 0, _ -> List.sort_uniq compare (List.concat flats)
+        | 1, f0 :: rest -> List.filter (fun x -> List.for_all (List.mem x) rest) f0
+        | _, [a; b] -> List.filter (fun x -> not (List.mem x b)) a
+        | _ -> [] in
+      if failed = 0 && vals = expected then None
+      else Some (Printf.sprintf "PROP fast path %s of failure-free sorted streams: implementation sent %s (failed=%d), the set result is %s"
+                   (match as_int op with 0 -> "union" | 1 -> "intersection" | _ -> "difference") (show vals) failed (show expected))
+    end in
+  match spec_violation with Some p -> p | None ->
   match r with
   | FPFuel -> if failed = 2 then "OK" else "DIFF model does not terminate, implementation does"
   | FPDone l -> if failed = 0 && il l = vals then "OK"
